@@ -3,8 +3,13 @@
    sender thread) and by the dag processor.
 
      WEnqueue t     Enqueue(t): `select { case tasks <- t: ; case <-quit: errTerminated }`
-                    - the send is enabled while the channel has room (also after quit: select
-                      chooses at random between two ready cases);
+                    - the buffered send is enabled while the channel has room (also after quit:
+                      select chooses at random between two ready cases);
+     WHandoff t i   Enqueue(t) on a channel with NO free buffer slot meeting worker i blocked in
+                    its select: the rendezvous of an unbuffered channel (maxTasks = 0) - the task
+                    is accepted and worker i runs it, in one step; there is never a task "in" an
+                    unbuffered channel, so a worker cannot exit and strand it;
+     WHandoffDrain t  the same rendezvous with Drain()'s receive: accepted and dropped at once;
      WRefuse t      Enqueue(t) returning errTerminated: enabled once quit is closed;
      WTake i        worker i, idle: `case job := <-tasks` (also enabled after quit, see above);
      WFinish i      worker i: job() returns;
@@ -13,7 +18,7 @@
      WQuit          close(quit).
 
    A label that is not enabled returns None.  Tasks are numbers (identities of closures).
-   Definitions only; proofs in proofs/WorkersProofs.v. *)
+   Definitions only; proofs in proofs/WorkersFifoProofs.v. *)
 From Coq Require Import NArith List Bool.
 Import ListNotations.
 
@@ -33,8 +38,8 @@ Record wstate := mkW {
 
 Definition w_init (cap n : nat) : wstate := mkW cap [] (repeat WIdle n) false [] [] [] [].
 
-Inductive wop := WEnqueue (t : N) | WRefuse (t : N) | WTake (i : nat) | WFinish (i : nat) | WExit (i : nat)
-               | WDrain | WQuit.
+Inductive wop := WEnqueue (t : N) | WHandoff (t : N) (i : nat) | WHandoffDrain (t : N) | WRefuse (t : N)
+               | WTake (i : nat) | WFinish (i : nat) | WExit (i : nat) | WDrain | WQuit.
 
 Fixpoint set_nth {A} (i : nat) (x : A) (l : list A) : list A :=
   match l, i with
@@ -46,15 +51,26 @@ Fixpoint set_nth {A} (i : nat) (x : A) (l : list A) : list A :=
 Definition wstep (s : wstate) (o : wop) : option wstate :=
   match o with
   | WEnqueue t =>
-      (* an unbuffered channel (cap 0) hands the task directly to a worker waiting in select:
-         modelled as room for one task when some worker is idle *)
-      let room := if Nat.ltb (length (w_tasks s)) (w_cap s) then true
-                  else (Nat.eqb (w_cap s) 0) && (Nat.eqb (length (w_tasks s)) 0)
-                       && existsb (fun w => match w with WIdle => true | _ => false end) (w_workers s) in
-      if room then
+      if Nat.ltb (length (w_tasks s)) (w_cap s) then
         Some (mkW (w_cap s) (w_tasks s ++ [t]) (w_workers s) (w_quit s) (w_accepted s ++ [t])
                   (w_started s) (w_executed s) (w_drained s))
       else None
+  | WHandoff t i =>
+      (* a sender can meet a receiver directly only when nothing is buffered *)
+      match w_tasks s, nth i (w_workers s) WGone with
+      | [], WIdle =>
+          Some (mkW (w_cap s) [] (set_nth i (WBusy t) (w_workers s)) (w_quit s) (w_accepted s ++ [t])
+                    (w_started s ++ [t]) (w_executed s) (w_drained s))
+      | _, _ => None
+      end
+  | WHandoffDrain t =>
+      match w_tasks s with
+      | [] => if Nat.eqb (w_cap s) 0 then
+                Some (mkW (w_cap s) [] (w_workers s) (w_quit s) (w_accepted s ++ [t])
+                          (w_started s) (w_executed s) (w_drained s ++ [t]))
+              else None
+      | _ => None
+      end
   | WRefuse t => if w_quit s then Some s else None
   | WTake i =>
       match nth i (w_workers s) WGone, w_tasks s with
